@@ -194,7 +194,13 @@ def arith(op, a, b):
     if op == '//':
         if x.is_int and y.is_int and isinstance(b, int) and b > 0:
             return _mk(x.re / y.re, None, np_)
-        raise OutOfSubset('// outside positive constant divisor')
+        if x.im is None and y.im is None:
+            if truth(eq_value(y, 0)):
+                if np_:
+                    return math.nan
+                raise_py('ZeroDivisionError')
+            return _mk(z3.ToReal(z3.ToInt(x.rez() / y.rez())), None, np_)      # floor(x / y), exact arithmetic
+        raise OutOfSubset('// on complex numbers')
     raise OutOfSubset(f'operator {op}')
 
 
